@@ -36,6 +36,14 @@ var Calls = map[string]int{}
 // Hook is called before and after each real call (phase "before"/"after") — crash-image capture.
 var Hook func(name, phase string)
 
+// Pre/Post are exported for sibling shims (vos).
+func Pre(name string) unix.Errno { return pre(name) }
+func Post(name string)           { post(name) }
+
+// TornHook, when set, is called before a write with the descriptor and the bytes about to be
+// written: the harness may write a prefix, capture a crash image and restore size and offset.
+var TornHook func(name string, fd int, data []byte)
+
 func pre(name string) unix.Errno {
 	if s := sched.Active(); s != nil {
 		s.Point("unix." + name)
@@ -77,6 +85,9 @@ func Close(fd int) error {
 }
 
 func Write(fd int, p []byte) (int, error) {
+	if TornHook != nil {
+		TornHook("Write", fd, p)
+	}
 	if e := pre("Write"); e != 0 {
 		return 0, e
 	}
@@ -86,6 +97,13 @@ func Write(fd int, p []byte) (int, error) {
 }
 
 func Writev(fd int, iovs [][]byte) (int, error) {
+	if TornHook != nil {
+		var all []byte
+		for _, v := range iovs {
+			all = append(all, v...)
+		}
+		TornHook("Writev", fd, all)
+	}
 	if e := pre("Writev"); e != 0 {
 		return 0, e
 	}
